@@ -77,6 +77,12 @@ TABLE = [
      "the result must equal the generating data bit-for-bit.",
      _NOTE + " One known finding (keyword inside a name/label) is excluded by a case-level signature and reported as KNOWN-FINDING.",
      "DESIGN.md section 3 C03"),
+    ("C04", "Hypothesis generated piece sequences around the sliver threshold, decoded by the independent reader and judged by a validity predicate",
+     "Interval tiers are generated as sequences of labelled / blank / gap pieces whose lengths straddle minimumIntervalLength "
+     "(slivers first, middle, last, in chains), saved with thresholds None/1e-8/0.001/0.06, span overrides and both blank-filling "
+     "settings in all formats; the decoded file must be the exact partition (None) or a grouping of consecutive pieces around "
+     "exactly one long piece each; overrides that cut into the data must raise and leave no file.",
+     _NOTE, "DESIGN.md section 3 C04"),
 ]
 
 PENDING = {}
